@@ -31,6 +31,19 @@ warnings.filterwarnings("ignore")
 GATE_FN = "(fun c => obs_of (run_gate c))"
 
 
+def diff_batched(ctx, tag, fn, cases, ie, oe, eqb, shard, per_call=24):
+    """ctx.diff_cases in batches of `per_call` shards: core gives ONE time budget to all shards of a call, which a
+    loaded machine can exceed in the thorough tier."""
+    bad = []
+    step = shard * per_call
+    for k in range(0, len(cases), step):
+        b = ctx.diff_cases("%s_b%d" % (tag, k // step), X.HEADER, fn, cases[k:k + step], ie, oe, eqb, shard=shard)
+        if b is None:
+            return None
+        bad += [k + i for i in b]
+    return bad
+
+
 # ====================================================================================== text suite
 def text_suite(ctx):
     import sys
@@ -211,7 +224,7 @@ def gate_suite(ctx):
                  nontrivial="HTTP_AUTHORIZATION" in env or "REMOTE_USER" in env or "HTTP_X_REMOTE_USER" in env)
     ctx.samples += [dict(suite="gate", auth_type=cfg["kind"], environ=case["env"], status=o["status"], events=[list(e) for e in o["events"]])
                     for (cfg, case), o in cases[7:9]]
-    bad = ctx.diff_cases("c05_gate", X.HEADER, GATE_FN, cases, X.enc_gcase, X.enc_gobs, "eq_gobs", shard=100)
+    bad = diff_batched(ctx, "c05_gate", GATE_FN, cases, X.enc_gcase, X.enc_gobs, "eq_gobs", shard=100)
     if bad is not None:
         ctx.obligation("correspondence:gate", not bad,
                        "" if not bad else "model differs from the implementation on %d of %d cases; first: cfg=%r env=%r observed=%r" % (
@@ -384,7 +397,7 @@ def htpasswd_suite(ctx):
     finally:
         shutil.rmtree(wd, ignore_errors=True)
     ctx.extra["htpasswd_attempts"] = sum(len(r or []) for _, r in cases)
-    bad = ctx.diff_cases("c05_ht", X.HEADER, "run_htpasswd", cases, H.enc_hcase, H.enc_hres, "eq_hres", shard=ctx.n(20, 60))
+    bad = diff_batched(ctx, "c05_ht", "run_htpasswd", cases, H.enc_hcase, H.enc_hres, "eq_hres", shard=ctx.n(20, 40))
     if bad is not None:
         ctx.obligation("correspondence:htpasswd", not bad,
                        "" if not bad else "model (of the patched code) differs from the implementation on %d of %d histories; first: %r -> %r" % (
@@ -470,7 +483,7 @@ def live_monitor(ctx):
                         if conf["auth"]["type"] != "none" and any(not (x == "collection-root" or x == "collection-root/" + want or x.startswith("collection-root/%s/" % want))
                                for x in new):
                             ctx.violation("C05 live: user %r changed entries outside its principal collection: %r" % (want, new[:4]), rep)
-                        if "root" in [x.split("/")[1] for x in new if x.count("/") >= 1]:
+                        if conf["auth"]["type"] != "none" and "root" in [x.split("/")[1] for x in new if x.count("/") >= 1]:
                             ctx.violation("C05 live: REMOTE_USER spoofing created /root", rep)
     finally:
         shutil.rmtree(d, ignore_errors=True)
